@@ -62,7 +62,11 @@ UploadOn(r) ==
   <<[op |-> "PushBlobChunked", r |-> r, u |-> "u1"], [op |-> "Write", r |-> r, u |-> "u1", data |-> <<1, 2>>],
     [op |-> "UpSize", r |-> r, u |-> "u1"], [op |-> "Close", r |-> r, u |-> "u1"],
     [op |-> "Resume", r |-> r, u |-> "u1", off |-> -1], [op |-> "Commit", r |-> r, u |-> "u1", dd |-> "b2"],
-    [op |-> "PushBlobChunked", r |-> r, u |-> "u2"], [op |-> "Cancel", r |-> r, u |-> "u2"]>>
+    [op |-> "PushBlobChunked", r |-> r, u |-> "u2"], [op |-> "Cancel", r |-> r, u |-> "u2"],
+    \* resuming with an upload id the registry never issued: the harness makes "e.." the EMPTY
+    \* id and "o.." odd ones ("../x", " ", ...); to the wrappers an id is opaque
+    [op |-> "Resume", r |-> r, u |-> "e1", off |-> -1], [op |-> "Write", r |-> r, u |-> "e1", data |-> <<1>>],
+    [op |-> "Resume", r |-> r, u |-> "o1", off |-> 0]>>
 PushesOn(r) ==
   <<[op |-> "PushBlob", r |-> r, c |-> "b0", dd |-> "b0", ds |-> 0],
     [op |-> "PushManifest", r |-> r, t |-> "t2", c |-> "img", mt |-> "image"],
@@ -154,7 +158,8 @@ NamesOK == \A n \in {x.s : x \in AllNames} : InvalidStaysInvalid(n) /\ ValidGoes
 \* the siblings of the prefix are not under it, and stripping inverts the mapping
 ViewOK == /\ \A x \in Repos : x \in Image <=> (Under(x) /\ ValidChars(SubSeq(Chars[x], Len(PrefixChars) + 1, Len(Chars[x]))))
           /\ \A y \in ViewRepos : Strip(SubName(y)) = y
-FTypeOK == TypeOK /\ (IsSub => NamesOK /\ ViewOK)
+ComposeLaw == \A p1, p2 \in {"foo", "org", "team", "a"} : ComposeOK(p1, p2, {x.s : x \in N1 \cup N2} \ {""}, MCScopes)
+FTypeOK == TypeOK /\ (IsSub => NamesOK /\ ViewOK /\ ComposeLaw)
 
 FView == <<state, kind, step>>
 =============================================================================
